@@ -20,7 +20,8 @@ def verify_variant(contract, variant_name, timeout_ms=10000, registry=None):
     sh = Shared(contract.key, variant_name, contract.timeout_ms or timeout_ms)
     src = FuncSource.of(contract.fn)
     t0 = time.time()
-    sh.variant_deadline = t0 + float(os.environ.get("PYVC_VARIANT_BUDGET_S", "0") or 0 or 40 * (contract.timeout_ms or timeout_ms) / 1000.0)
+    budget = float(os.environ.get("PYVC_VARIANT_BUDGET_S") or 0)
+    sh.variant_deadline = t0 + (budget if budget > 0 else 40 * (contract.timeout_ms or timeout_ms) / 1000.0)
     worklist = [[]]
     status = "ok"
     message = ""
